@@ -27,7 +27,7 @@
 (***************************************************************************)
 EXTENDS Naturals, Sequences, FiniteSets, TLC, Json
 
-CONSTANTS Kinds, Schemas, Bare, TAliases, SAliases, ColNames, MaxRels, MaxItems, MaxRefs, Known, Emit, WithUnion, WithMeta, WithLiteral, WithForeign
+CONSTANTS Kinds, Schemas, Bare, TAliases, SAliases, ColNames, MaxRels, MaxItems, MaxRefs, Known, Emit, WithUnion, WithMeta, WithLiteral, WithForeign, WithLca
 
 None == "none"
 Star == "*"
@@ -35,17 +35,17 @@ Inners == { <<[c |-> "c", al |-> None]>>, <<[c |-> "c", al |-> None], [c |-> "d"
 \* what the metadata provider says about a table it knows
 MetaCols(t) == IF t = "s.a" THEN <<"c", "d">> ELSE IF t = "s.b" THEN <<"c", "e">> ELSE <<"c">>
 
-VARIABLES kind, rels, items, branch2, collist, known, tk, phase
-vars == <<kind, rels, items, branch2, collist, known, tk, phase>>
+VARIABLES kind, rels, items, branch2, collist, known, tk, lca, phase
+vars == <<kind, rels, items, branch2, collist, known, tk, lca, phase>>
 
 TblName(r) == (IF r.s = None THEN "<default>" ELSE r.s) \o "." \o r.n
 Exposed(r) == IF r.al # None THEN r.al ELSE r.n
 ToSet(s) == {s[i] : i \in DOMAIN s}
 ItemName(it) == IF it.al # None THEN it.al ELSE IF Len(it.refs) = 1 THEN it.refs[1].c ELSE "expr"
 
-Init == kind = None /\ rels = <<>> /\ items = <<>> /\ branch2 = <<>> /\ collist = <<>> /\ known = {} /\ tk = FALSE /\ phase = "start"
+Init == kind = None /\ rels = <<>> /\ items = <<>> /\ branch2 = <<>> /\ collist = <<>> /\ known = {} /\ tk = FALSE /\ lca = FALSE /\ phase = "start"
 Start == /\ phase = "start" /\ \E k \in Kinds : kind' = k
-         /\ phase' = "from" /\ UNCHANGED <<rels, items, branch2, collist, known, tk>>
+         /\ phase' = "from" /\ UNCHANGED <<rels, items, branch2, collist, known, tk, lca>>
 \* exposed names pairwise distinct; the same table is not joined twice (self joins: Stmt.tla's business)
 NameOK(r) == /\ \A i \in DOMAIN rels : Exposed(rels[i]) # Exposed(r)
              /\ (r.k = "tbl" => \A i \in DOMAIN rels : rels[i].k = "tbl" => TblName(rels[i]) # TblName(r))
@@ -55,13 +55,13 @@ AddTbl == /\ phase = "from" /\ Len(rels) < MaxRels
           /\ \E s \in Schemas, n \in Bare, al \in TAliases \cup {None} :
                LET r == [k |-> "tbl", s |-> s, n |-> n, al |-> al, inner |-> <<>>] IN
                NameOK(r) /\ rels' = Append(rels, r)
-          /\ UNCHANGED <<kind, items, branch2, collist, known, tk, phase>>
+          /\ UNCHANGED <<kind, items, branch2, collist, known, tk, lca, phase>>
 AddSub == /\ phase = "from" /\ Len(rels) < MaxRels
           /\ \E al \in SAliases, s \in Schemas, n \in Bare, inner \in Inners :
                LET r == [k |-> "sub", s |-> s, n |-> n, al |-> al, inner |-> inner] IN
                NameOK(r) /\ rels' = Append(rels, r)
-          /\ UNCHANGED <<kind, items, branch2, collist, known, tk, phase>>
-ToItems == /\ phase = "from" /\ Len(rels) >= 1 /\ phase' = "items" /\ UNCHANGED <<kind, rels, items, branch2, collist, known, tk>>
+          /\ UNCHANGED <<kind, items, branch2, collist, known, tk, lca, phase>>
+ToItems == /\ phase = "from" /\ Len(rels) >= 1 /\ phase' = "items" /\ UNCHANGED <<kind, rels, items, branch2, collist, known, tk, lca>>
 \* an item: a literal (no refs), one reference, or an expression over two references (which must carry an alias, since the
 \* display name of an un-aliased expression follows its text); a wildcard stands alone and takes no alias
 \* r = Foreign: the qualifier "zz" names nothing in the FROM scope - the analyser's documented fallback takes it for a table
@@ -69,22 +69,28 @@ ToItems == /\ phase = "from" /\ Len(rels) >= 1 /\ phase' = "items" /\ UNCHANGED 
 Foreign == 9
 \* r = Scalar: not a reference into the FROM scope either - a scalar subquery ( SELECT max(zc) FROM zt ) over a table of its own
 Scalar == 8
-Outside(r) == r \in {Foreign, Scalar}
+\* r = Lat: an unqualified name spelled like the select alias of an EARLIER item of the same select list.  With the configuration
+\* key LATERAL_COLUMN_ALIAS_REFERENCE on and a metadata provider in use it denotes that item's expression (redshift, spark >= 3.4,
+\* databricks) unless a relation in scope is known to have a column of that name; otherwise it is an ordinary unqualified column
+Lat == 7
+Outside(r) == r \in {Foreign, Scalar, Lat}
 \* c = Cnt: no column but count(*) - an aggregate over every row of the FROM scope, fed by the wildcard of each relation
 Cnt == "count(*)"
 Refs == [r : 0..Len(rels), c : ColNames \cup {Star}] \cup (IF WithLiteral /\ (\A i \in DOMAIN rels : rels[i].k = "tbl") THEN {[r |-> 0, c |-> Cnt]} ELSE {})
         \cup (IF WithForeign THEN [r : {Foreign}, c : ColNames] \cup {[r |-> Scalar, c |-> "zc"]} ELSE {})
+        \cup (IF WithLca THEN [r : {Lat}, c : {items[j].al : j \in DOMAIN items} \ {None}] ELSE {})
 RefSeqs == (IF WithLiteral THEN {<<>>} ELSE {}) \cup {<<x>> : x \in Refs}
            \cup (IF MaxRefs >= 2 THEN {<<x, y>> : x \in {z \in Refs : z.c # Star}, y \in {z \in Refs : z.c # Star}} ELSE {})
 ItemOK(it) == /\ (Len(it.refs) = 2 => it.al # None /\ it.refs[1] # it.refs[2])
               /\ ((\E m \in DOMAIN it.refs : it.refs[m].r = Scalar \/ it.refs[m].c = Cnt) => it.al # None)      \* an un-aliased subquery is named by its text
               /\ (Len(it.refs) = 0 => it.al # None)
+              /\ ((\E m \in DOMAIN it.refs : it.refs[m].r = Lat) => it.al # None)
               /\ (Len(it.refs) = 1 /\ it.refs[1].c = Star => it.al = None)
               /\ \A j \in DOMAIN items : ItemName(items[j]) # ItemName(it) \/ ItemName(it) = Star
 AddItem == /\ phase = "items" /\ Len(items) < MaxItems /\ branch2 = <<>>
-           /\ \E al \in {None, "k", "m"}, rf \in RefSeqs :
+           /\ \E al \in {None, "k", "m"} \cup (IF WithLca THEN {"e"} ELSE {}), rf \in RefSeqs :
                 LET it == [al |-> al, refs |-> rf] IN ItemOK(it) /\ items' = Append(items, it)
-           /\ UNCHANGED <<kind, rels, branch2, collist, known, tk, phase>>
+           /\ UNCHANGED <<kind, rels, branch2, collist, known, tk, lca, phase>>
 \* second branch of a set operation: one table, one single-column item per position
 AddBranch == /\ phase = "items" /\ WithUnion /\ Len(items) >= 1 /\ branch2 = <<>>
              /\ \A i \in DOMAIN items : Len(items[i].refs) <= 1 /\ (Len(items[i].refs) = 1 => items[i].refs[1].c # Star)
@@ -95,12 +101,12 @@ AddBranch == /\ phase = "items" /\ WithUnion /\ Len(items) >= 1 /\ branch2 = <<>
                   branch2' = <<[s |-> s, n |-> n, al |-> al,
                                 cols |-> [i \in DOMAIN items |-> IF shared THEN (IF i = 1 THEN "d" ELSE IF i = 2 THEN "c" ELSE "e")
                                                                             ELSE (IF i = 1 THEN "y" ELSE IF i = 2 THEN "z" ELSE "w")]]>>
-             /\ UNCHANGED <<kind, rels, items, collist, known, tk, phase>>
+             /\ UNCHANGED <<kind, rels, items, collist, known, tk, lca, phase>>
 Tables == {TblName(rels[i]) : i \in {j \in DOMAIN rels : rels[j].k = "tbl" /\ rels[j].s # None}}    \* metadata is about schema-qualified tables
 HasStar == \E i \in DOMAIN items : Len(items[i].refs) = 1 /\ items[i].refs[1].c = Star
 Finish == /\ phase = "items" /\ Len(items) >= 1
           /\ \E cl \in {<<>>, [i \in DOMAIN items |-> IF i = 1 THEN "p" ELSE IF i = 2 THEN "q" ELSE "r"]}, kn \in SUBSET (IF WithMeta THEN Tables ELSE {}),
-                t \in (IF WithMeta THEN BOOLEAN ELSE {FALSE}) :
+                t \in (IF WithMeta THEN BOOLEAN ELSE {FALSE}), lc \in (IF WithLca THEN BOOLEAN ELSE {FALSE}) :
                /\ (cl # <<>> <=> kind = "insert_cols")
                \* UPDATE tgt SET name = expression, ... FROM relations: one assignment per item, named by the item; references
                \* are qualified (unqualified, the target's own columns would be in scope too)
@@ -113,7 +119,7 @@ Finish == /\ phase = "items" /\ Len(items) >= 1
                \* the provider may know the target table (written schema-qualified then): as many columns as the statement has items
                \* (a CREATE TABLE AS whose target the provider happens to know defines the table anew: its columns are the select's)
                /\ (t => kind \in {"insert", "insert_cols", "ctas"} /\ ~HasStar)
-               /\ collist' = cl /\ known' = kn /\ tk' = t
+               /\ collist' = cl /\ known' = kn /\ tk' = t /\ lca' = lc
           /\ phase' = "done" /\ UNCHANGED <<kind, rels, items, branch2>>
 Next == Start \/ AddTbl \/ AddSub \/ ToItems \/ AddItem \/ AddBranch \/ Finish
 Spec == Init /\ [][Next]_vars
@@ -159,10 +165,24 @@ StarOf(i) == LET r == rels[i] IN
 \* else the select alias; else the column's own name
 TgtMeta == <<"t1", "t2", "t3">>
 TgtName(j) == IF collist # <<>> THEN collist[j] ELSE IF tk /\ kind # "ctas" THEN TgtMeta[j] ELSE ItemName(items[j])
+\* lateral column alias reference (documented in docs/gear_up/configuration.rst): the name denotes the earlier item when the key
+\* is on, a provider is in use, and no relation in scope is KNOWN to have a column of that name - known from the provider's
+\* metadata or from the select list of a derived table; otherwise the name is an ordinary unqualified column reference
+MetaHasCol(i, c) == IsKnown(rels[i]) /\ c \in ToSet(MetaCols(TblName(rels[i])))
+FromDataset(c) == \E i \in DOMAIN rels : (rels[i].k = "sub" /\ SubHas(rels[i], c)) \/ MetaHasCol(i, c)
+ProviderInUse == known # {} \/ tk
+LatApplies(c) == lca /\ ProviderInUse /\ ~FromDataset(c)
+LatItem(c) == CHOOSE j \in DOMAIN items : items[j].al = c
+RECURSIVE ItemSrcs(_)
+ItemSrcs(j) == UNION {IF items[j].refs[m].r = Lat
+                      THEN (IF LatApplies(items[j].refs[m].c) /\ LatItem(items[j].refs[m].c) < j
+                            THEN ItemSrcs(LatItem(items[j].refs[m].c))
+                            ELSE SrcOfRef([r |-> 0, c |-> items[j].refs[m].c]))
+                      ELSE SrcOfRef(items[j].refs[m]) : m \in DOMAIN items[j].refs}
 FlowItem(j) == LET it == items[j] IN
    IF Len(it.refs) = 1 /\ it.refs[1].c = Star
    THEN UNION {StarOf(i) : i \in (IF it.refs[1].r > 0 THEN {it.refs[1].r} ELSE DOMAIN rels)}
-   ELSE {<<s, TgtName(j)>> : s \in UNION {SrcOfRef(it.refs[m]) : m \in DOMAIN it.refs}}
+   ELSE {<<s, TgtName(j)>> : s \in ItemSrcs(j)}
 FlowBranch2 == IF branch2 = <<>> THEN {}
                ELSE {<<Col(TblName([s |-> branch2[1].s, n |-> branch2[1].n]), branch2[1].cols[j]), TgtName(j)>> : j \in DOMAIN items}
 Flow == UNION {FlowItem(j) : j \in DOMAIN items} \cup FlowBranch2
@@ -195,7 +215,16 @@ ExpandedPairwiseDistinct(j) == LET it == items[j] IN
       \A a, b \in (IF it.refs[1].r > 0 THEN {it.refs[1].r} ELSE DOMAIN rels) : a # b => {f[2] : f \in StarOf(a)} \cap {f[2] : f \in StarOf(b)} \subseteq {Star}
 ValidOutput == /\ \A j, k \in DOMAIN items : j # k => OutNames(j) \cap OutNames(k) \subseteq {Star}
                /\ \A j \in DOMAIN items : ExpandedPairwiseDistinct(j)
-ValidProgram == ValidColumns /\ ValidSubRefs /\ ValidSingleSub /\ ValidOutput
+\* a lateral name refers to an earlier item that has sources; nothing else in the statement says that a plain table of the scope
+\* has a column of that name (a qualified reference x.k elsewhere, a derived table over the same table selecting k: mixed evidence
+\* is outside the grammar, as for ValidColumns); over a single derived table the name must be lateral or one of its columns
+LatRefs == {<<j, m>> \in (DOMAIN items) \X (1..2) : m <= Len(items[j].refs) /\ items[j].refs[m].r = Lat}
+ValidLat == \A jm \in LatRefs : LET c == items[jm[1]].refs[jm[2]].c IN
+   /\ \E k \in 1..(jm[1] - 1) : items[k].al = c /\ Len(items[k].refs) > 0
+   /\ \A i \in DOMAIN rels : rels[i].k = "tbl" => c \notin (InnerCols(TblName(rels[i])) \cup QualifiedCols(i))
+   /\ (LatApplies(c) \/ ~(Len(rels) = 1 /\ rels[1].k = "sub") \/ SubHas(rels[1], c))
+   /\ (~LatApplies(c) /\ Len(rels) > 1 => Cardinality({i \in DOMAIN rels : c \in KnownCols(i)}) <= 1)
+ValidProgram == ValidColumns /\ ValidSubRefs /\ ValidSingleSub /\ ValidOutput /\ ValidLat
 
 (***************************************************************************)
 (* Machine: the same resolution BY NAME through the alias map              *)
@@ -214,13 +243,24 @@ Map == IF "D_ALIAS_MAP_PRECEDENCE" \in Known THEN MapOld ELSE MapIntended
 \* the qualifier text of a reference to relation i is its exposed name; the machine looks that text up
 MachineRel(i) == Map[Exposed(rels[i])]
 MachineSrcOfRef(ref) == IF ref.r > 0 /\ ~Outside(ref.r) THEN SrcOfRel(MachineRel(ref.r), ref.c) ELSE SrcOfRef(ref)
+\* lateral aliases in the machine: a dictionary from alias text to the sources resolved for that item, filled item by item in
+\* select-list order (an item registers itself after it was resolved, so it never sees its own alias); a source column whose
+\* NAME is in the dictionary is replaced unless one of its candidate relations is known to have it.
+\* D_LCA_IGNORES_DATASET: the replacement is made without asking whether a relation in scope has the column
+MLatApplies(c) == IF "D_LCA_IGNORES_DATASET" \in Known THEN lca /\ ProviderInUse ELSE LatApplies(c)
+RECURSIVE MachineItemSrcs(_)
+MachineItemSrcs(j) == UNION {IF items[j].refs[m].r = Lat
+                             THEN (IF MLatApplies(items[j].refs[m].c) /\ LatItem(items[j].refs[m].c) < j
+                                   THEN MachineItemSrcs(LatItem(items[j].refs[m].c))
+                                   ELSE MachineSrcOfRef([r |-> 0, c |-> items[j].refs[m].c]))
+                             ELSE MachineSrcOfRef(items[j].refs[m]) : m \in DOMAIN items[j].refs}
 MachineFlowItem(j) == LET it == items[j] IN
    IF Len(it.refs) = 1 /\ it.refs[1].c = Star
    THEN UNION {StarOf(i) : i \in (IF it.refs[1].r > 0 THEN {MachineRel(it.refs[1].r)} ELSE DOMAIN rels)}
-   ELSE {<<s, TgtName(j)>> : s \in UNION {MachineSrcOfRef(it.refs[m]) : m \in DOMAIN it.refs}}
+   ELSE {<<s, TgtName(j)>> : s \in MachineItemSrcs(j)}
 MachineFlow == UNION {MachineFlowItem(j) : j \in DOMAIN items} \cup FlowBranch2
 MachineFlowExact == (phase = "done" /\ ValidProgram) => MachineFlow = Flow
 
-Program == [kind |-> kind, rels |-> rels, items |-> items, branch2 |-> branch2, collist |-> collist, known |-> known, tk |-> tk]
+Program == [kind |-> kind, rels |-> rels, items |-> items, branch2 |-> branch2, collist |-> collist, known |-> known, tk |-> tk, lca |-> lca]
 EmitCase == (Emit /\ phase = "done" /\ ValidProgram) => PrintT(<<"CASE", ToJson([prog |-> Program, flow |-> Flow])>>)
 =============================================================================
